@@ -19,7 +19,7 @@ import (
 // A probe installed as the first global middleware snapshots the context at
 // entry of every request.
 
-var kindNames = []string{"store", "errors", "abort", "status-write", "replace-resp", "replace-req", "set-handlers", "dynamic", "dynamic2", "notfound", "notallowed", "panic", "redispatch", "nested", "copy", "mutate-params", "dynamic3", "delegate", "hijack", "mutate-novar", "novar", "keep-copy", "panic-status", "mutate-query", "query", "render-fail", "render-ok", "hijack2"}
+var kindNames = []string{"store", "errors", "abort", "status-write", "replace-resp", "replace-req", "set-handlers", "dynamic", "dynamic2", "notfound", "notallowed", "panic", "redispatch", "nested", "copy", "mutate-params", "dynamic3", "delegate", "hijack", "mutate-novar", "novar", "keep-copy", "panic-status", "mutate-query", "query", "render-fail", "render-ok", "hijack2", "notallowed3"}
 
 type kindReq struct {
 	method, path string
@@ -61,6 +61,8 @@ var kindReqs = map[string]kindReq{
 	"render-fail": {"GET", "/view/bad"},
 	"render-ok":   {"GET", "/view/good"},
 	"hijack2":     {"GET", "/hj2"},
+	// a path with exactly three allowed methods, asked with a fourth
+	"notallowed3": {"DELETE", "/tri"},
 }
 
 // kindRenderer is the router's view renderer: it writes a heading, then fails for the view named "bad"
@@ -112,6 +114,8 @@ type kindCfg struct {
 	// NoGlobal: the router has no global middleware; the probe is the first middleware of every route and the first
 	// of custom NotFound / NotAllowed chains (so the context's chain buffer is the router's own slice on 404 / 405)
 	NoGlobal bool
+	// MutNA: a custom NotAllowed handler that edits the allowed-methods slice it was given (adds OPTIONS, sorts it)
+	MutNA bool
 }
 
 func newKindRouter(cfg kindCfg) *kindRouter {
@@ -151,6 +155,16 @@ func newKindRouter(cfg kindCfg) *kindRouter {
 		}
 		r.GET(path, main, mws...)
 	}
+	if cfg.MutNA {
+		r.NotAllowed(func(c *rux.Context) {
+			al, _ := c.SafeGet(rux.CTXAllowedMethods).([]string)
+			al = append(al, "OPTIONS")
+			sort.Strings(al)
+			c.SetHeader("Allow", strings.Join(al, ", "))
+			c.Text(405, "not allowed; try "+strings.Join(al, ","))
+		})
+	}
+	r.Add("/tri", func(c *rux.Context) { c.WriteString("tri") }, "GET", "POST", "PUT")
 	// a second router a handler may delegate to
 	k.other = rux.New()
 	k.other.GET("/deleg", func(c *rux.Context) { c.WriteString("other-router:" + fmt.Sprint(c.Router() == k.other)) })
@@ -302,7 +316,14 @@ func (k *kindRouter) probe(c *rux.Context) string {
 	sort.Strings(keys)
 	sb.WriteString("data{")
 	for _, key := range keys {
-		fmt.Fprintf(&sb, "%s=%v;", key, data[key])
+		v := data[key]
+		if ss, ok := v.([]string); ok {
+			// (the allowed-methods list comes out of a map: its order is not an observation)
+			cp := append([]string(nil), ss...)
+			sort.Strings(cp)
+			v = cp
+		}
+		fmt.Fprintf(&sb, "%s=%v;", key, v)
 	}
 	fmt.Fprintf(&sb, "} query{%s} params{%s} errors=%d first=%v aborted=%v status=%d length=%d chain=%d", c.QueryValues().Encode(), canonParams(c.Params), len(c.Errors), c.FirstError(), c.IsAborted(), c.StatusCode(), c.Length(), c.VerifChainLen())
 	if k.depth == 0 {
